@@ -217,7 +217,15 @@ func oracleC15Refused(r *SeqRun) []explore.Violation {
 					}
 				}
 				if !answered {
-					pending[st.Op.Cmd.Req] = &pend{raw: prevRaw, had: held(), typ: st.Op.Cmd.Data[4]}
+					// a further pending operation touches the pending ones before it
+					for _, p := range pending {
+						p.touched = true
+						if n := "pending-" + opName(st.Op.Cmd.Data); !strings.Contains(p.touchers, n) {
+							p.touchers += n + ","
+						}
+					}
+					// (with others pending the register frame before this request already carries their effects: no baseline)
+					pending[st.Op.Cmd.Req] = &pend{raw: prevRaw, had: held(), typ: st.Op.Cmd.Data[4], touched: len(pending) > 0}
 				}
 			}
 		}
@@ -231,7 +239,7 @@ func oracleC15Refused(r *SeqRun) []explore.Violation {
 					if p.touched {
 						refused = append(refused, opName(data[e.Req])+"/"+p.touchers)
 					}
-					if p.had && held() && !p.touched && st.Snap != nil {
+					if p.had && held() && !p.touched && st.Snap != nil && len(pending) == 0 {
 						now := rawOf(st.Snap)
 						same := len(now) == len(p.raw) && (len(now) < 6 || string(now[5:]) == string(p.raw[5:]))
 						bv, _ := refmodel.DecodeFrame(p.raw)
@@ -316,6 +324,10 @@ func oracleC15Refused(r *SeqRun) []explore.Violation {
 // operation is applied on top of the others' operations and the signature spells the history out.
 func refusedSig(refused []string) string {
 	kind := func(s string) string { return strings.TrimSuffix(s, "+props") }
+	if strings.Contains(strings.Join(refused, ";"), "pending-") {
+		// several acknowledgement-required requests were pending at once: one root cause, one signature
+		return "refused-undoes-others/several-requests-pending-at-once"
+	}
 	otherOnly := len(refused) > 0
 	for _, r := range refused {
 		p := strings.SplitN(r, "/", 2)
@@ -324,7 +336,7 @@ func refusedSig(refused []string) string {
 			break
 		}
 		for _, t := range strings.Split(strings.TrimSuffix(p[1], ","), ",") {
-			if t == "" || kind(t) == kind(p[0]) {
+			if t == "" || strings.TrimPrefix(kind(t), "pending-") == kind(p[0]) {
 				otherOnly = false
 			}
 		}
@@ -476,6 +488,8 @@ func c15Specs(quick bool) []*SeqSpec {
 	for _, dd := range [][]byte{set0, appx, inc, pipeI, pipeA, vd(protocol.NewLockCommandDataPushString("b")), vd(protocol.NewLockCommandDataShiftData(2)), vd(protocol.NewLockCommandDataPopData(1)), vd(protocol.NewLockCommandDataUnsetData())} {
 		nack = append(nack, op(1, withTF(withData(L(0, 1, 2, 1, 9, 5, 0), dd), tfAck)))
 	}
+	// a second LockId of b, so that two acknowledgement-required operations can be pending at once
+	nack = append(nack, op(1, withTF(withData(L(0, 1, 3, 1, 9, 5, 0), vd(protocol.NewLockCommandDataSetString("v1"))), tfAck)))
 	nack = append(nack, tick(2500*ms), op(0, U(0, 1, 1)))
 	nackCfg := cfg
 	nackCfg.MissingAcks = 1
